@@ -10,17 +10,18 @@ import (
 	"crypto/elliptic"
 	"crypto/rand"
 	"crypto/rsa"
-	"crypto/sha256"
 	"crypto/tls"
 	"crypto/x509"
 	"crypto/x509/pkix"
 	"fmt"
 	"math/big"
 	"net"
+	"reflect"
 	"strings"
 	"sync"
 	"testing"
 	"time"
+	"unsafe"
 
 	"github.com/saucelabs/forwarder/internal/zzverif/bubble"
 	"github.com/saucelabs/forwarder/internal/zzverif/explore"
@@ -29,41 +30,50 @@ import (
 )
 
 var (
-	leafKeyOnce sync.Once
-	leafKey     *rsa.PrivateKey
+	tmplOnce sync.Once
+	tmplCfg  *Config
+	tmplCA   *x509.Certificate
 )
 
-// newTestConfig builds a Config like NewConfigWithCache does, but with a leaf key generated once per
-// process (RSA key generation is the only expensive part and does not depend on the clock).
+// newTestConfig returns a Config made by the package's own constructor. NewConfigWithCache generates an
+// RSA-2048 key (~70 ms), so one template per process is built by the real constructor (with a CA valid from
+// 1990, i.e. also at the bubble's virtual clock) and every execution works on a shallow copy whose cache is
+// replaced by a fresh one. The cache field is set through reflection ("certs"): the harness names no other
+// unexported field of Config, so refactorings of Config that still compile do not break this file.
 func newTestConfig(capacity uint32, ttl, validity time.Duration) (*Config, *x509.Certificate) {
-	leafKeyOnce.Do(func() {
-		k, err := rsa.GenerateKey(rand.Reader, 2048)
+	tmplOnce.Do(func() {
+		caKey, _ := ecdsa.GenerateKey(elliptic.P256(), rand.Reader)
+		tmpl := &x509.Certificate{
+			SerialNumber: big.NewInt(1), Subject: pkix.Name{CommonName: "harness MITM CA"},
+			NotBefore: time.Date(1990, 1, 1, 0, 0, 0, 0, time.UTC), NotAfter: time.Date(2090, 1, 1, 0, 0, 0, 0, time.UTC),
+			KeyUsage: x509.KeyUsageCertSign | x509.KeyUsageDigitalSignature, BasicConstraintsValid: true, IsCA: true,
+		}
+		raw, err := x509.CreateCertificate(rand.Reader, tmpl, tmpl, caKey.Public(), caKey)
 		if err != nil {
 			panic(err)
 		}
-		leafKey = k
+		ca, _ := x509.ParseCertificate(raw)
+		cache, _ := NewCache(CacheConfig{Capacity: 1, TTL: time.Hour})
+		c, err := NewConfigWithCache(ca, caKey, cache)
+		if err != nil {
+			panic(err)
+		}
+		tmplCfg, tmplCA = c, ca
 	})
-	caKey, _ := ecdsa.GenerateKey(elliptic.P256(), rand.Reader)
-	tmpl := &x509.Certificate{
-		SerialNumber: big.NewInt(1), Subject: pkix.Name{CommonName: "harness MITM CA"},
-		NotBefore: time.Now().Add(-time.Hour), NotAfter: time.Now().Add(1000 * time.Hour),
-		KeyUsage: x509.KeyUsageCertSign | x509.KeyUsageDigitalSignature, BasicConstraintsValid: true, IsCA: true,
-	}
-	raw, err := x509.CreateCertificate(rand.Reader, tmpl, tmpl, caKey.Public(), caKey)
-	if err != nil {
-		panic(err)
-	}
-	ca, _ := x509.ParseCertificate(raw)
 	cache, err := NewCache(CacheConfig{Capacity: capacity, TTL: ttl})
 	if err != nil {
 		panic(err)
 	}
-	roots := x509.NewCertPool()
-	roots.AddCert(ca)
-	pkixpub, _ := x509.MarshalPKIXPublicKey(leafKey.Public())
-	h := sha256.Sum256(pkixpub)
-	c := &Config{ca: ca, capriv: caKey, priv: leafKey, keyID: h[:], validity: validity, org: "harness", certs: cache, roots: roots}
-	return c, ca
+	cp := *tmplCfg
+	c := &cp
+	f := reflect.ValueOf(c).Elem().FieldByName("certs")
+	if !f.IsValid() {
+		panic("harness: mitm.Config has no field named certs any more")
+	}
+	reflect.NewAt(f.Type(), unsafe.Pointer(f.UnsafeAddr())).Elem().Set(reflect.ValueOf(cache))
+	c.SetValidity(validity)
+	c.SetOrganization("harness")
+	return c, tmplCA
 }
 
 var names = []string{"a.test", "A.test", "b.test", "c.test", "127.0.0.1", "::1", "[::1]:443", "a.test:8443", "192.0.2.7:443", "xn--bcher-kva.test", "*.wild.test"}
